@@ -1244,7 +1244,7 @@ def model_requests(spec, obs):
             elif what == 'grid':        # a grid write is refused only when no format is found
                 reqs.append(('format', 'C16 format %s %s' % (o['name'], fm), 'err ' + o['w']))
     # chains of files (A > B > C): the last object read, or the kind of the refusal that ended the chain
-    if what in ('grid', 'field') and (what == 'grid' or 'dict_tree' in obs):
+    if what == 'grid' or 'dict_tree' in obs:
         lay = obs['getstate'][0] if (what == 'field' and 'getstate' in obs) else ('c' if what == 'field' else '-')
         for rec in obs.get('chain_out', []):
             exp = ('ok ' + rec['out']) if rec['out'] is not None else ('err ' + rec['err'])
